@@ -86,7 +86,11 @@ impl PingTracker {
     /// the default timeout if no RTT has been measured yet.
     pub fn ping_timeout(&self) -> Duration {
         self.last_rtt
-            .map(|rtt| (rtt * 3).clamp(MIN_HEALTH_CHECK_TIMEOUT, self.max_timeout))
+            .map(|rtt| {
+                // A maximum below the floor wins, `clamp` would panic on `min > max`.
+                let min = MIN_HEALTH_CHECK_TIMEOUT.min(self.max_timeout);
+                (rtt * 3).clamp(min, self.max_timeout)
+            })
             .unwrap_or(self.max_timeout)
     }
 
